@@ -147,6 +147,10 @@ claim("C01", "Proof that both ends of each wire-helper pair use the same keys an
       "arrow-go's IPC writer and reader being inverse is NOT assumed by any obligation: the round trip itself is exercised by the replay witnesses only.",
       ["round trip through arrow-go IPC (witnesses only)", "FindStreamTokens' walk over concatenated streams and its termination", "garbled-bytes robustness of the Arrow reader"])
 
+claim("C21", "Proof that Exchange posts a turn only in the state 'no cursor, finished' (the cursor is cleared before the request goes out), that the only values Exchange ever stores in the cursor are the empty string or the non-empty cursor of a completely parsed response carrying exactly one data batch (and clears the finished flag only then), that Cancel only clears the cursor and only sets the finished flag, that Next stores exactly the parsed response's cursor; the stream's cursor and finished flag are written by the stream's own operations only (checked package-wide); every ambiguous outcome of an exchange turn is returned as an error with no batch; post checks the request cap before sending, reads at most cap+1 encoded bytes, decodes what it read, and turns a non-2xx status into an HTTPStatusError.",
+      "no reentrancy from the transport into the stream (the owned-writes check is syntactic).",
+      ["exactly the server's batches in order, tokens stripped from metadata, typed exceptions (parseIPCStream / stripClientControlMetadata)", "schema / encoding / trailing-byte rejection inside parseMain", "the decoded cap comparison in post"])
+
 # properties not claimed: reason
 NOT_APPLICABLE = {
     "C11": "relational two-run equivalence between the pipe loop and the HTTP handlers routed through gob, AEAD and Arrow IPC; contracts here are single-run and per function",
